@@ -10,7 +10,7 @@ ID = "C13"
 LEVEL = "exploration"
 BUDGET = {"quick": 55, "thorough": 900}
 QUICK_CASES = 3000  # generator items in the quick tier (fixed amount of work; BUDGET is then only a safety cap)
-FLOOR = {"quick": 800, "thorough": 4000}
+FLOOR = {"quick": 800, "thorough": 800}  # conclusive cases below which a run is inconclusive (the thorough tier is time-budgeted: same floor)
 TIMEOUT = 90
 REQUIRED_OBS = ["schedules", "unique_calls", "takeovers", "kill_me_suicides", "snapshots_checked", "tasks_finished", "tasks_killed", "decorator_form_runs"]
 RULE = (
